@@ -61,6 +61,8 @@ EXEMPT_LOCALS = {
         "the pieces after the address are option assignments; a '!' inside a password is re-joined into text by the loop above",
     ('openfilter/filter_runtime/zeromq.py::ZMQReceiver.__init__', 'topics'):
         "second element of the (address, topic map) pairs Filter.parse_topics builds: topic names; the address is `addr`",
+    ('openfilter/cli/common.py::parse_filters', 'id'):
+        "the address part of a source text that was found among the ids of the filters in the list (config_by_id.get(id)): a filter name",
     ('openfilter/filter_runtime/filters/rest.py::REST.normalize_config', 'mappings'):
         "the pieces after the first ';' are endpoint mappings (method/path>topic); the address is the first piece",
 }
@@ -128,6 +130,7 @@ class TaintEngine:
         self.changed = False
         self.filter_classes: set[str] = set()     # class keys deriving from Filter
         self.config_classes: set[str] = set()     # dict subclasses (config records)
+        self.source_records: set[str] = set()     # functions in which a freshly created, empty config record is a source (filled from the command line)
         self._index()
 
     # ------------------------------------------------------------------------------------------------- indexing
@@ -546,6 +549,13 @@ class _Analysis:
     def assign(self, tgt, labels, env, value_node):
         if isinstance(tgt, ast.Name):
             env[tgt.id] = labels
+            for k in [k for k in env if k.startswith(tgt.id + '.')]:     # fields remembered for the object this name held before
+                del env[k]
+            head = value_node.values[0] if isinstance(value_node, ast.JoinedStr) and value_node.values else value_node
+            if isinstance(head, ast.Constant) and isinstance(head.value, str) and re.match(r'[A-Za-z][A-Za-z0-9+.\-]*://', head.value):
+                env['<head>' + tgt.id] = True      # a text that starts with a scheme: f'tcp://localhost:{port}'
+            else:
+                env.pop('<head>' + tgt.id, None)
             if isinstance(value_node, ast.Lambda):
                 env['<fn>' + tgt.id] = ('lambda', value_node, dict(env), self.fi.mod)
             return
@@ -587,6 +597,8 @@ class _Analysis:
                     self.eng.cut_config_stores[(self.fi.key, U(tgt))] = (tgt, self.fi.mod)
             if isinstance(base, ast.Name):
                 env[base.id] = env.get(base.id, EMPTY) | labels if isinstance(env.get(base.id, EMPTY), frozenset) else labels
+                if base.id not in ('self', 'cls'):
+                    env[f'{base.id}.{tgt.attr}'] = labels      # what this field holds from here on (until the name is rebound): `cfg.outputs = f'tcp://*:{port}'` then `log(cfg.outputs)`
             return
         if isinstance(tgt, ast.Subscript):
             base = tgt.value
@@ -601,7 +613,10 @@ class _Analysis:
             while isinstance(root, (ast.Subscript, ast.Attribute)):
                 root = root.value
             if isinstance(root, ast.Name) and isinstance(env.get(root.id, EMPTY), frozenset):
-                env[root.id] = env.get(root.id, EMPTY) | labels
+                if root is base and self.fi.key in self.eng.source_records and env.get(root.id, EMPTY) == frozenset([SRC]):
+                    pass        # `config[param] = value` in the CLI: the record stands for the command line already, what is parsed out of the '--param=value' tokens adds nothing to it
+                else:
+                    env[root.id] = env.get(root.id, EMPTY) | labels
             if isinstance(base, ast.Attribute) and isinstance(base.value, ast.Name) and base.value.id == 'self' and self.clskey is not None:
                 self.eng.set_attr(self.clskey, base.attr, self._concrete(labels))
                 self.eng.set_attr_keys(self.clskey, base.attr, self._concrete(self.ev_quiet(tgt.slice, env)))
@@ -753,8 +768,8 @@ class _Analysis:
                 spec = U(v.format_spec) if v.format_spec is not None else ''
                 if spec and any(ch in spec for ch in 'dfeEgGxXob%') and not any(ch in spec for ch in 's'):
                     lab = EMPTY      # numeric format spec: the value is a number
-                if i == 1 and self._scheme_prefix(node.values[0]):
-                    lab = self._reprefixed(lab)          # f'file://{path}': the scheme the masks anchor on is back
+                if i >= 1 and self._scheme_prefix(node.values[0]):
+                    lab = self._reprefixed(lab)          # f'file://{path}', f'tcp://{host}:{port}': the text starts with a scheme, the masks cover everything from there to any later '@'
                 out |= lab
         return out
 
@@ -771,6 +786,10 @@ class _Analysis:
         l, r = self.ev(node.left, env), self.ev(node.right, env)
         if isinstance(node.op, ast.Add) and self._scheme_prefix(node.left):
             r = self._reprefixed(r)                      # 'file://' + path
+        elif isinstance(node.op, ast.Add) and NOSCHEME not in l and ((SRC in l and URI in l) or (isinstance(node.left, ast.Name) and env.get('<head>' + node.left.id) is True)):
+            # uri + tail: the text starts with the URI's scheme, and the masks (C15.R3: the password class excludes nothing but '@') cover everything between a scheme and any later '@',
+            # so a credential-like piece in the tail is masked along with it
+            r = r - frozenset([NOSCHEME])
         return l | r
 
     def ev_Attribute(self, node, env):
@@ -1055,6 +1074,10 @@ class _Analysis:
                     self.eng.note_field_store(k, node, SRC in lab)
                     if SRC in lab and URI in lab and self.fi.node.name == 'normalize_config':
                         self.eng.add_uri_field(k, f'{self.fi.key}:{node.lineno}')
+            if not allargs and self.fi.key in self.eng.source_records:
+                # an empty record created in a function that fills it from the command line (the CLI's wiring function): it is put into a list first and written to afterwards, through
+                # aliases the flow-sensitive labels do not follow - the record itself is the source, its URI-valued fields are read back below
+                return frozenset([SRC])
             return allargs              # a config record built from tainted parts is tainted
         if init is not None:
             bound = self._bind_args(init, node, args, kwargs, True)
